@@ -191,11 +191,64 @@ Definition take_first (s : gstate) (n : Z) : gstate * lres :=
 
    `drive` is what that `for` loop sees; `conv` is the outer body's reaction; the nested body is
    the inlined list of outer steps. *)
+(* ---------------------------------------------------------------- what a body may hand to `yield`
+   generator.py looks at a yielded object only to ask `isinstance(_, Value)` (send 149,
+   _send_inner 164); everything else takes the `else` path: it becomes the first thing the
+   _send_inner task waits for (151) or is yielded to the scheduler as it is (167).  So the body may
+   yield whatever an @asynq() function may yield: a future, None ("nothing to wait for here", e.g.
+   `yield (lookup.asynq(k) if k else None)` or a bare `yield`), or a tuple / list / dict of those,
+   empty ones included.  What the `yield` then evaluates to is async_task.unwrap
+   (async_task.py:441-484): None for None, future.value() for a future (raising its error), the
+   container of the unwrapped members, left to right, for a container (the first member that
+   raises wins). *)
+Inductive aw :=
+| WNone                            (* None                                            454-455 *)
+| WFut (o : outcome)               (* a future computed with value / error            456-458 *)
+| WTuple (l : list aw)             (* 459-473 *)
+| WList (l : list aw)              (* 474-476 *)
+| WDict (l : list (Z * aw)).       (* 477-479, items in insertion order *)
+
+Fixpoint unwrap (w : aw) {struct w} : outcome :=
+  let fix seq (l : list aw) {struct l} : list val + exn :=
+      match l with
+      | [] => inl []
+      | x :: l' =>
+        match unwrap x with
+        | Err e => inr e
+        | Ok v => match seq l' with inl vs => inl (v :: vs) | inr e => inr e end
+        end
+      end in
+  let fix dseq (l : list (Z * aw)) {struct l} : list (Z * val) + exn :=
+      match l with
+      | [] => inl []
+      | (k, x) :: l' =>
+        match unwrap x with
+        | Err e => inr e
+        | Ok v => match dseq l' with inl vs => inl ((k, v) :: vs) | inr e => inr e end
+        end
+      end in
+  match w with
+  | WNone => Ok VNone
+  | WFut o => o
+  | WTuple l => match seq l with inl vs => Ok (VTuple vs) | inr e => Err e end
+  | WList l => match seq l with inl vs => Ok (VList vs) | inr e => Err e end
+  | WDict l => match dseq l with inl vs => Ok (VDict vs) | inr e => Err e end
+  end.
+
+Definition tres_of (o : outcome) : tres :=
+  match o with Ok v => TVal v | Err e => TErr e end.
+
+(* the step of the flat body that `yield w` is: for generator.py it is one more awaited thing whose
+   outcome is unwrap w.  In particular a pause `yield None` is an await that resumes with None; it
+   is NOT the end of the body (gen_send gives YFuture, never YStop, for it). *)
+Definition yield_step (w : aw) : step := GAwait (tres_of (unwrap w)).
+
 Inductive gstep :=
 | NAwait (o : tres)
 | NValue (v : val)
 | NRaise (e : exn)
-| NNest (b : list gstep).
+| NNest (b : list gstep)
+| NYield (w : aw).        (* x = yield w, w not a Value: None / future / container of them *)
 
 Inductive drv := DTask (t : tres) | DRaise (e : exn).
 
@@ -224,6 +277,7 @@ Fixpoint inline1 (g : gstep) : list step :=
   | NAwait o => [GAwait o]
   | NValue v => [GValue v]
   | NRaise e => [GRaise e]
+  | NYield w => [yield_step w]
   | NNest b =>
     let ib := flat_map inline1 b in
     flat_map conv (drive (fuel_of (init ib)) (init ib))
